@@ -50,7 +50,7 @@ pub fn ty_str(t: &syn::Type) -> String {
     t.to_token_stream().to_string().replace(' ', "")
 }
 
-fn self_ty_name(t: &syn::Type) -> String {
+pub fn self_ty_name(t: &syn::Type) -> String {
     // last path segment ident without generics
     match t {
         syn::Type::Path(p) => p.path.segments.last().map(|s| s.ident.to_string()).unwrap_or_default(),
